@@ -538,6 +538,15 @@ func (r *run) dark() int {
 	return n
 }
 
+// calm: a Stop or Resize interleaves with every Submit call still in flight, and each of those multiplies the
+// states the monitor must track.  One in-flight call (e.g. a Submit pending on a full queue and holding
+// closeMu.RLock - the interesting case) is kept; for more the driver waits: Submit's 50 ms timer settles them.
+func (r *run) calm() {
+	if !r.wait(70*time.Millisecond, func() bool { return r.unsettled() <= 1 }) {
+		r.tags["calm_timeout"]++
+	}
+}
+
 // unsettled = calls of which nothing has been seen yet (no return value, no start, no answer)
 func (r *run) unsettled() int {
 	n := 0
@@ -619,6 +628,7 @@ func enact(sc schedule, idx int, tier string) Case {
 				notEnacted("call") // the model has one Stop call at a time (and this stream does not overlap calls)
 				continue
 			}
+			r.calm()
 			active, queued := r.load()
 			if active+queued > 0 {
 				r.tags["stop_with_work"]++
@@ -642,6 +652,7 @@ func enact(sc schedule, idx int, tier string) Case {
 				notEnacted("call")
 				continue
 			}
+			r.calm()
 			active, queued := r.load()
 			if active+queued > 0 {
 				r.tags["resize_with_work"]++
